@@ -316,6 +316,8 @@ func runC02(c *Ctx) {
 	}
 
 	runC02Rest(c, q, funcs, lc)
+	runC02Resync(c, q, funcs)
+	runC02Chain(c, funcs)
 }
 
 func posOf(p *Prog, in ssa.Instruction) string {
